@@ -156,7 +156,7 @@ Lemma resolve_clean s0 name ops v pin :
     {| c_name := string_of_bytes name; c_version := string_of_bytes v;
        c_dep := dep_of_matcher (string_of_bytes ops); c_pin := string_of_bytes pin |}.
 Proof.
-  intros Hs Hso Hc. unfold resolve_constraint, so_rewrite. rewrite Hso.
+  intros Hs Hso Hc. unfold resolve_constraint, so_rewrite, so_rewrite_with. rewrite Hso.
   rewrite string_of_bytes_of_string.
   unfold full_match. rewrite package_name_regex_body. rewrite Hs.
   rewrite (match_clean _ _ _ _ Hc). rewrite (split_clean _ _ _ _ Hc).
